@@ -96,10 +96,19 @@ pub fn cov_map(out: &RunOutput) -> Vec<(&'static str, u64)> {
 
 pub fn gen_for(prop: &str, seed: u64, _tier: &str) -> Plan {
     let sp = spec::spec(prop).expect("unknown property");
-    match sp.engine {
+    let mut plan = match sp.engine {
+        // C12: one history in five is a typed shape template (vars of vars, ...)
+        Engine::Core if prop == "C12" && seed % 5 == 0 => crate::templates::gen_plan(seed),
+        // C11: the audit also runs over the expert, map and template engines
+        Engine::Core if prop == "C11" && seed % 8 == 0 => crate::expert::gen_plan(seed),
+        Engine::Core if prop == "C11" && seed % 8 == 1 => crate::mapeng::gen_plan(if seed % 16 == 1 { "C15" } else { "C16" }, seed),
+        Engine::Core if prop == "C11" && seed % 8 == 2 => crate::templates::gen_plan(seed),
         Engine::Core => crate::gen::gen_plan(seed, &spec::profile(prop)),
         Engine::Expert | Engine::Map | Engine::Limits => crate::engines::gen_plan(prop, seed),
-    }
+    };
+    // C11's audit lines describe latent corruption: for every other property keep going after one
+    plan.knobs.stop_on = prop.to_string();
+    plan
 }
 
 pub fn run_any(plan: &Plan, keep: bool) -> RunOutput {
